@@ -244,8 +244,11 @@ func (t *Tasks) UnmarshalYAML(node *yaml.Node) error {
 }
 
 func taskNameWithNamespace(taskName string, namespace string) string {
+	// A leading ":" refers to a task of the root Taskfile. The marker is kept
+	// (it is removed when the task is looked up), so that the reference still
+	// means the root when this Taskfile is itself included by another one
 	if strings.HasPrefix(taskName, NamespaceSeparator) {
-		return strings.TrimPrefix(taskName, NamespaceSeparator)
+		return taskName
 	}
 	return fmt.Sprintf("%s%s%s", namespace, NamespaceSeparator, taskName)
 }
